@@ -84,3 +84,5 @@ LEVEL_TEXT = ("c15_takes_partition/c15_takes_chain/c15_header/c15_header_chunkin
               "theorem (matcher's num_taken+index) is part of C01's model. Tie: the same op sequences run on the real ItemPool, plus contention runs of the real SpinLock.")
 LEVEL_NOTE = ("Partial w.r.t. weak memory: the lock/pool models interleave atomic steps under sequential consistency; the written orderings are extracted and "
               "checked to be >= acquire/release/SeqCst, hardware reordering below that is not modelled. Trusted: Lean kernel, extractor, harness.")
+
+TECHNIQUE += ' + translator tie: ItemPool::{append,take,reset,clear,len,num_taken,num_not_taken} translated from src/item.rs and proved equal to Model/Pool (Props/PoolFnsTables.lean)'
